@@ -50,7 +50,7 @@ def gen_plan(seed: int, tier: str, focus: str = "c10") -> dict:
         beh[b] = fault_w / max(1, len(enabled))
     profile = {
         "hosts": [[a, k] for a, k in zip(addrs, kinds)],
-        "lat": [0.0005, r.choice([0.0005, 0.02, 0.3])],
+        "lat": [0.0005, r.choice([0.0005, 0.02, 0.3])], "coalesce": r.choice([0, 0, 0.3, 1.0]),
         "seg": r.choice(["whole", "whole", "random", "halves"]),
         "conn_behaviour": beh,
         "connect": {"ok": 1.0, "refuse": r.choice([0, 0.2, 1.0]), "blackhole": r.choice([0, 0, 0.3]), "unreachable": r.choice([0, 0.2]),
